@@ -65,4 +65,3 @@ func (v *Verifier) lemmaExec(l *Lemma) (fx *fnExec, err error) {
 	}
 	return fx, nil
 }
-
